@@ -286,3 +286,19 @@ package idxfile
 //gvc:  modifies w.count, w.objects
 //gvc:  ensures counted: w.count == count && result == nil
 //gvc:end
+
+// addOffset64 (C10: offsets beyond 2^31 decode back). The writer's side of the
+// 64-bit table: the k-th large offset is appended to Offset64 as 8 bytes and
+// the value stored in the 32-bit table is k with the top bit set -- exactly
+// what getOffset / LazyIndex.offset / the mmap reader decode (entry k at
+// byte 8*k).
+//gvc:func (*Writer).addOffset64
+//gvc:  props C10
+//gvc:  theory bv
+//gvc:  opt coarse
+//gvc:  opt frame args
+//gvc:  results index err
+//gvc:  requires room: w.index != nil && len(w.index.Offset64) <= 0x800000000
+//gvc:  ensures slot: err == nil && old(w.offset64) < 0x80000000 ==> index == old(w.offset64) + 0x80000000 && w.offset64 == old(w.offset64) + 1
+//gvc:  ensures grown: len(w.index.Offset64) <= old(len(w.index.Offset64)) + 8
+//gvc:end
